@@ -25,6 +25,7 @@ EXPLANATION = (
 EXPLANATION += " C10.R3 also checks every caller of Stack::Resize (which keeps size_-1 frames) to come after the size_ increment. C10.R4: when the token destructor's Detach is conditional on token state, that state is only written behind a successful storage Detach. C10.R5: Context::GetValue returns a stored value only behind key.size() == key_length_ and memcmp(...) == 0 over that length."
 EXPLANATION += ' C10.R3 treats the membership test (bool result) direction-agnostically - every attached frame must be examined, by a loop bounded by size_ or a standard algorithm over [base_, base_+size_) - and resolves slot writes through reference locals and copy bounds through once-initialised locals. C10.R4 follows the Scope constructor through private helpers.'
 ROUND2_EXPLANATION = (' C10.R3 also: typestate of a successful Detach over the edge on which the token equals the current top: exactly one Pop follows it before return true. C10.R5 also: in every list walk of Context (GetValue; HasKey when it does not delegate) the next node is unreachable once the key comparison is pinned to equal.')
+ROUND2_EXPLANATION += (" C10.R3 also: the slot Pop clears is the frame it removes (the index is read against the counter as it stands where the subscript is evaluated). C10.R6: Context::SetValue / SetValues store this context's head_ into the next_ link of the tail of the new chain on every path (a cursor is the tail behind the exit edge of its walk; a helper that returns such a cursor is summarised), and RuntimeContext::SetValue / GetValue work on *context behind the not-null outcome and on GetCurrent() behind the null outcome, never on an empty context. C10.R7: in the DataList constructors the allocated, recorded and copied key lengths are the same linear form. C10.R8: in the container constructor a cursor through which a node is linked is advanced to that node before the next link (template instantiated by the driver unit tu/api_context.cc).")
 EXPLANATION += ROUND2_EXPLANATION
 NOT_DECIDED = 'stack behaviour over arbitrary attach/detach sequences and depths; GetValue lookup order beyond the list shape.'
 
@@ -248,6 +249,14 @@ def rule_r3(ck, prog, rule='C10.R3', cls='opentelemetry::context::ThreadLocalCon
         if strip_casts(f, rp.n['e']).get('v') != 1:
             continue
         why = None
+        helpers_ = [p_ for p_ in g.points if p_.n is not None and p_.n['k'] == 'call' and 'ThreadLocalContextStorage::Stack::' in strip_targs(p_.n.get('c', '')) and
+                    not p_.n.get('cconst') and strip_targs(p_.n['c']).rsplit('::', 1)[-1] not in ('Pop', 'Push', 'Top', 'Contains')]
+        if any(rp.id in g.reachable_from([q for (q, _l) in h_.succ]) for h_ in helpers_):
+            # an index-based unwind (depth search, then "pop down to n frames") is another algorithm: there is no token == Top() edge to
+            # hang the typestate on
+            ck.inconclusive(rule, f, 'detach-pops-exactly-the-token-frame', rp.n, 'frames are removed through Stack::%s, a helper this rule does not model' %
+                            strip_targs(helpers_[0].n['c']).rsplit('::', 1)[-1])
+            continue
         if not matched or not g.must_pass_edge(rp, match_edge):
             why = 'Detach can return true without the token having been found on top of the stack'
         else:
@@ -403,11 +412,21 @@ def rule_r3(ck, prog, rule='C10.R3', cls='opentelemetry::context::ThreadLocalCon
             rel = relation(g, rd, lab[1], lab[0], a.ctx, lab[2])
             return rel in (('!=0', frozenset({('this.size_', 1)})), ('>=0', frozenset({('this.size_', 1), ('1', -1)})))
         ok = bool(subs) and all(g.must_pass_edge(p, nonempty_edge) for p in subs) and \
-            all(linear(g, rd, sf, p.n['index'], p.ctx) == {'this.size_': 1, '1': -1} for p in subs)
+            (name == 'Pop' or all(linear(g, rd, sf, p.n['index'], p.ctx) == {'this.size_': 1, '1': -1} for p in subs))
         if name == 'Pop':
             decs = [p for p in g.points if p.n is not None and ((p.n['k'] == 'binop' and p.n['op'] == '-=') or (p.n['k'] == 'unop' and p.n['op'] == '--'))
                     and access_path(sf, p.n.get('lhs', p.n.get('e'))) == ('this', 'size_')]
             ok = ok and len(decs) == 1 and g.must_pass_edge(decs[0], nonempty_edge)
+            if ok:
+                # the slot that is cleared is the frame that is removed: the index is written in terms of the counter as it stands
+                # where the subscript is evaluated, so a subscript behind the decrement has to read size_ (not size_ - 1)
+                after = g.reachable_from([q for (q, _l) in decs[0].succ])
+                for sp_ in subs:
+                    lin = linear(g, rd, sf, sp_.n['index'], sp_.ctx)
+                    if sp_.id in after:
+                        ok = ok and g.must_pass(sp_, decs) and lin == {'this.size_': 1}
+                    else:
+                        ok = ok and lin == {'this.size_': 1, '1': -1}
         if not subs:
             ck.inconclusive(rule, sf, '%s-behind-not-empty' % name.lower(), None, '%s does not address the top frame by a subscript (a pointer / helper is used): not decided' % name)
             continue
@@ -751,12 +770,302 @@ def rule_r5_first_match(ck, prog, rule='C10.R5'):
     return cnt
 
 
+def _tail_edge(f, root):
+    """edge predicate: this outcome of a condition says `<root>->next_` is null (root: first element of the cursor's access path)"""
+    def pred(a, b, lab):
+        if not lab or not isinstance(lab[0], int):
+            return False
+        core, pol = norm_cond(lab[1], lab[0])
+        out = lab[2] if pol else not lab[2]
+        c = comparison(f, core)
+        if c and c[0] in ('!=', '=='):
+            sides = [access_path(f, c[1]), access_path(f, c[2])]
+            if not any(x == (root, 'next_') for x in sides):
+                return False
+            return out is (c[0] == '==')
+        if access_path(f, core) == (root, 'next_'):
+            return out is False
+        return False
+    return pred
+
+
+def _returns_tail(prog, h):
+    """every return of the helper hands back a cursor (parameter or local) behind the outcome `cursor->next_ == nullptr`"""
+    g = Graph(prog, h, inline=None, sync_lambdas=False)
+    rets = [r for r in g.returns() if r.n.get('e') is not None and r.n['e'] >= 0]
+    if not rets:
+        return False
+    for r in rets:
+        ap = access_path(h, r.n['e'])
+        if len(ap) != 1 or not (ap[0].startswith('local:') or ap[0].startswith('param:')):
+            return False
+        if not g.must_pass_edge(r, _tail_edge(h, ap[0])):
+            return False
+    return True
+
+
+def rule_r6(ck, prog, rule='C10.R6'):
+    """a derived context keeps every older binding: SetValue / SetValues link the new nodes in front of this context's list (the
+    tail of the new chain gets `head_` of *this on every path), and the RuntimeContext helpers derive from / look up in the context
+    they were given, the current one only when none was given"""
+    for name in ('SetValue', 'SetValues'):
+        f = prog.function('context::Context::' + name)
+        # (a private helper of Context that attaches the old list is inlined; constructors are not)
+        g = Graph(prog, f, inline=lambda caller, call, callee, depth: callee.cls == f.cls and callee.kind not in ('ctor', 'dtor'), sync_lambdas=False, max_depth=2)
+        rd = reaching_defs(g)
+        links = [p for p in g.points if p.n is not None and p.n['k'] == 'call' and p.n.get('op') == '=' and p.n.get('obj') is not None and
+                 access_path(p.f, p.n['obj'])[-1:] == ('next_',) and p.n.get('args') and access_path(p.f, p.n['args'][-1]) == ('this', 'head_')]
+        site = 'new-chain-linked-to-old-list@' + name
+        if not links:
+            others = [p for p in g.points if p.n is not None and p.n['k'] == 'call' and p.n.get('ck') in prog.funcs and prog.funcs[p.n['ck']].cls != f.cls and
+                      any(access_path(p.f, a_) == ('this', 'head_') for a_ in p.n.get('args', []))]
+            if others:
+                ck.inconclusive(rule, f, site, others[0].n, 'this context\'s head_ is handed to %s, which this rule does not follow' % strip_targs(others[0].n['c']))
+            else:
+                ck.violation(rule, f, site, None, 'Context::%s never stores this context\'s head_ into a next_ link of the new chain: the derived context has lost every older binding' % name)
+            continue
+        ok = g.exit.id not in g.reachable_from(g.entry, avoid=links)
+        why = 'every path to the return passes the link' if ok else 'a path returns the new context without linking the old list behind it'
+        if ok:
+            for lk in links:
+                lf = lk.f
+                base = strip_casts(lf, lf.nodes[lk.n['obj']]['base']) if lf.nodes[lk.n['obj']]['k'] == 'member' else None
+                # the shared_ptr's operator-> in between
+                while base is not None and base['k'] == 'call' and base.get('obj') is not None and base.get('op') in ('->', '*'):
+                    base = strip_casts(lf, base['obj'])
+                if base is not None and base['k'] == 'call' and base.get('ck') in prog.funcs and _returns_tail(prog, prog.funcs[base['ck']]):
+                    continue      # a helper that walks to the last node of the chain it is given
+                if base is None or base['k'] not in ('ref', 'member'):
+                    ok = None
+                    why = 'the node whose next_ is linked was not resolved'
+                    break
+                ap = access_path(lf, base['i'])
+                if ap[-1:] == ('head_',) and (ap[0].startswith('local:') or ap[0].startswith('param:')) and len(ap) == 2:
+                    continue      # the single fresh node (of a local context, or of the by-value context an inlined helper was given)
+                if base['k'] == 'ref' and base.get('sk') == 'local':
+                    # a cursor: it has to stand on the tail of the fresh chain, i.e. the link is reached only over the exit edge of a
+                    # walk `while (cursor->next_ != nullptr)`
+                    if not g.must_pass_edge(lk, _tail_edge(lf, ap[0])):
+                        ok = None
+                        why = 'the link is stored through a cursor that is not shown to stand on the last node of the new chain'
+                        break
+                else:
+                    ok = None
+                    why = 'the node whose next_ is linked is neither the fresh head nor a local cursor'
+                    break
+        if ok is None:
+            ck.inconclusive(rule, f, site, links[0].n, why)
+        else:
+            ck.verdict(ok, rule, f, site, links[0].n, why if ok else 'Context::%s: %s: older bindings are lost in the derived context' % (name, why))
+    for name in ('SetValue', 'GetValue'):
+        f = prog.function('context::RuntimeContext::' + name)
+        # (a private helper that selects the context is inlined; GetCurrent itself stays a call: it is the "current" source)
+        g = Graph(prog, f, inline=lambda caller, call, callee, depth: callee.cls == f.cls and callee.name != 'GetCurrent', sync_lambdas=False, max_depth=2)
+        rd = reaching_defs(g)
+        cparam = [p_ for p_ in f.params if 'Context' in p_['t'] and '*' in p_['t']]
+        calls = [p for p in g.points if p.n is not None and p.n['k'] == 'call' and strip_targs(p.n.get('c', '')).endswith('context::Context::' + name) and p.n.get('obj') is not None]
+        site = 'helper-uses-given-context@RuntimeContext::' + name
+        if not cparam or not calls:
+            ck.inconclusive(rule, f, site, None, 'optional context parameter / forwarded Context::%s call not found' % name)
+            continue
+        cid = cparam[0]['id']
+
+        def is_cparam(sf, idx, sc):
+            # the optional context parameter itself, also seen through the parameter of an inlined helper it was passed to
+            x = strip_casts(sf, idx)
+            if x.get('id') == cid:
+                return True
+            if x['k'] == 'ref' and x.get('sk') == 'param':
+                return any(sn.get('id') == cid for (_sf, sn, _sc) in origins(g, rd, sf, idx, sc))
+            return False
+
+        def null_edge(want_null):
+            def pred(a, b, lab):
+                if not lab or not isinstance(lab[0], int):
+                    return False
+                core, pol = norm_cond(lab[1], lab[0])
+                out = lab[2] if pol else not lab[2]
+                cf = lab[1]
+                c = comparison(cf, core)
+                if c and c[0] in ('==', '!='):
+                    sides = [c[1], c[2]]
+                    mine = [x for x in sides if is_cparam(cf, x, a.ctx)]
+                    if not mine:
+                        return False
+                    other = [strip_casts(cf, x) for x in sides if x not in mine]
+                    if not other or not (other[0]['k'] in ('lit', 'nullptr') or other[0].get('v') == 0):
+                        return False
+                    says_null = out is (c[0] == '==')
+                    return says_null is want_null
+                if is_cparam(cf, core, a.ctx):
+                    return (not out) is want_null
+                return False
+            return pred
+        verdict = True
+        why = ''
+        seen_kinds = set()
+
+        def kind_of(sf, sn, sc=None):
+            if sn['k'] == 'unop' and sn.get('op') == '*' and is_cparam(sf, sn['e'], sc):
+                return 'given'
+            if sn['k'] == 'ref' and sn.get('id') == cid:
+                return 'given'            # context->X(...)
+            if sn['k'] == 'call' and strip_targs(sn.get('c', '')).endswith('RuntimeContext::GetCurrent'):
+                return 'current'
+            if sn['k'] == 'construct' and not sn.get('args') and 'Context' in (sn.get('cls') or sn.get('c') or ''):
+                return 'empty'            # a default-constructed Context that nothing was assigned to
+            return 'other:' + sn['k']
+
+        def check_at(pt, kinds):
+            # the point at which one source is selected has to lie behind the matching outcome of the null test
+            if kinds == {'given'}:
+                return (True, '') if g.must_pass_edge(pt, null_edge(False)) else (False, 'the given context is used without the not-null outcome of the test in front')
+            if kinds == {'current'}:
+                return (True, '') if g.must_pass_edge(pt, null_edge(True)) else (False, 'the current context replaces a context the caller passed in')
+            if kinds == {'empty'} or kinds == {'empty', 'given'} or kinds == {'empty', 'current'}:
+                return (False, 'an empty context stands in for %s' % ('the current one' if 'current' not in kinds else 'the given one'))
+            return (None, 'the context the call works on derives from %s at one selection point' % sorted(kinds))
+        def selections(pt, sf0, idx, sc0, depth=0):
+            """[(point at which the source is selected, {kinds})]: a ?: is split into its two arms, each selected at its own point"""
+            out, plain = [], set()
+            for (sf, sn, sc) in origins(g, rd, sf0, idx, sc0):
+                if sn['k'] == 'cond' and depth < 3:
+                    for br in (sn.get('a'), sn.get('b')):
+                        if br is None or br < 0:
+                            continue
+                        bp = None
+                        for j in [br] + list(sf.subtree(br)):
+                            bp = g.point_of.get((id(sc), j))
+                            if bp is not None:
+                                break
+                        out += selections(bp or pt, sf, br, sc, depth + 1)
+                else:
+                    # the source is selected where it is evaluated (inside the arm / branch / inlined helper that chose it)
+                    op_ = g.point_of.get((id(sc), sn['i']))
+                    if op_ is not None:
+                        out.append((op_, {kind_of(sf, sn, sc)}))
+                    else:
+                        plain.add(kind_of(sf, sn, sc))
+            if plain:
+                out.append((pt, plain))
+            return out
+        for cp in calls:
+            ref = strip_casts(f, cp.n['obj'])
+            if ref['k'] == 'call' and ref.get('op') in ('->', '*') and ref.get('obj') is not None:
+                ref = strip_casts(f, ref['obj'])
+            sel = []
+            if ref['k'] == 'ref' and ref.get('sk') == 'local':
+                pt = g.point_of.get((id(cp.ctx), ref['i'])) or cp
+                for dp in [g.points[d] for (v, d) in rd.get(pt.id, ()) if v == ref.get('id')]:
+                    got = []
+                    for (vid, strong, vx) in defs_in_node(dp.f, dp.n):
+                        if vid == ref.get('id') and vx is not None:
+                            got += selections(dp, dp.f, vx, dp.ctx)
+                    if not got and dp.n['k'] == 'declstmt':
+                        got = [(dp, {'empty'})]
+                    sel += got
+            else:
+                sel += selections(cp, f, cp.n['obj'], cp.ctx)
+            # a declaration without initialiser that is overwritten on every path does not reach the call and is not in `sel`
+            for (pt, o) in sel:
+                seen_kinds |= o
+                v_, w_ = check_at(pt, o)
+                if v_ is False:
+                    verdict, why = False, w_
+                elif v_ is None and verdict is True:
+                    verdict, why = None, w_
+        if verdict is True and not {'given', 'current'} <= seen_kinds:
+            verdict, why = False, 'only %s is ever used' % ('the given context' if 'given' in seen_kinds else 'the current context')
+        if verdict is None:
+            ck.inconclusive(rule, f, site, calls[0].n, why)
+        else:
+            ck.verdict(verdict, rule, f, site, calls[0].n, 'works on *context when one is given, on the current context otherwise' if verdict else
+                       'RuntimeContext::%s: %s: the result does not derive from the context the caller named' % (name, why))
+
+
+def rule_r7(ck, prog, rule='C10.R7'):
+    """a node stores the whole key: allocation size, recorded length and copied byte count are the same expression (the length of
+    the source key), so that the length-and-bytes comparison of the lookup sees the key the caller bound"""
+    ctors = [f for f in prog.funcs.values() if strip_targs(f.qn).endswith('context::Context::DataList::DataList')]
+    found = 0
+    for f in sorted(ctors, key=lambda x: x.line):
+        # (an allocate-and-copy helper of the node class is inlined; its parameters resolve to the constructor's expressions)
+        g = Graph(prog, f, inline=lambda caller, call, callee, depth: callee.cls == f.cls and callee.kind not in ('ctor', 'dtor'), sync_lambdas=False, max_depth=2)
+        rd = reaching_defs(g)
+        news = [p for p in g.points if p.n is not None and p.n['k'] == 'new' and 'size' in p.n and (p.n.get('ty') or '') == 'char']
+        if not news:
+            continue
+        found += 1
+
+        def into_key(p):
+            if access_path(p.f, p.n['args'][0], p.ctx) == ('this', 'key_') or access_path(p.f, p.n['args'][0]) == ('this', 'key_'):
+                return True
+            return any(sn['k'] == 'new' for (_sf, sn, _sc) in origins(g, rd, p.f, p.n['args'][0], p.ctx))
+        cps = [p for p in g.points if p.n is not None and p.n['k'] == 'call' and strip_targs(p.n.get('c', '')).rsplit('::', 1)[-1] in ('memcpy', 'memmove', 'strncpy') and len(p.n.get('args', [])) == 3
+               and into_key(p)]
+        lens = [p for p in g.points if p.n is not None and p.n['k'] == 'binop' and p.n['op'] == '=' and access_path(p.f, p.n['lhs']) == ('this', 'key_length_') and p.f is f]
+        site = 'key-stored-whole:%s' % ('copy' if any('DataList' in p_['t'] for p_ in f.params) else 'key-value')
+        if not cps:
+            ck.inconclusive(rule, f, site, news[0].n, 'key allocation without a block copy into it: the copy idiom was not recognised')
+            continue
+        forms = [linear(g, rd, p.f, p.n['size'], p.ctx) for p in news] + [linear(g, rd, p.f, p.n['args'][2], p.ctx) for p in cps] + \
+                [linear(g, rd, p.f, p.n['rhs'], p.ctx) for p in lens]
+        if any(x is None for x in forms):
+            ck.inconclusive(rule, f, site, cps[0].n, 'a length expression is not linear')
+            continue
+        # a length read back from key_length_ *is* the recorded length: equal to the assignment in the body when there is one; when
+        # the member is set in the initialiser list (which the IR does not attribute to fields) it is left out of the comparison
+        rec = [linear(g, rd, p.f, p.n['rhs'], p.ctx) for p in lens]
+        forms = [(rec[0] if rec else None) if x == {'this.key_length_': 1} else x for x in forms]
+        forms = [x for x in forms if x is not None]
+        if not forms:
+            ck.inconclusive(rule, f, site, cps[0].n, 'every length is read back from key_length_, which is set in the initialiser list')
+            continue
+        ok = all(x == forms[0] for x in forms) and len(forms[0]) == 1
+        ck.verdict(ok, rule, f, site, cps[0].n, 'allocated, recorded and copied length are all %s' % fmt(forms[0]) if ok else
+                   'the key is allocated / recorded / copied with different lengths (%s): the stored key is not the key that was bound, lookups compare against other bytes' % ', '.join(fmt(x) for x in forms))
+    if not found:
+        ck.inconclusive(rule, ctors[0] if ctors else None, 'key-stored-whole', None, 'no DataList constructor allocates a character array for the key: the key is stored another way')
+
+
+def rule_r8(ck, prog, rule='C10.R8'):
+    """construction from a container keeps every pair: a cursor through which a node is linked (`cur->next_ = new node`) is advanced
+    to that node before the next link is stored (otherwise each pair overwrites the link of the one before)"""
+    ctors = [f for f in prog.funcs.values() if strip_targs(f.qn).endswith('context::Context::DataList::DataList') and
+             any(n['k'] in ('forrange', 'for', 'while') for n in f.nodes)]
+    if not ctors:
+        raise AnalysisBroken('C10.R8: the container constructor of DataList is not instantiated in the driver unit')
+    from .common import stale_across_iterations
+    for f in sorted(ctors, key=lambda x: x.line):
+        g = Graph(prog, f, inline=None, sync_lambdas=False)
+        rd = reaching_defs(g)
+        links = [p for p in g.points if p.n is not None and p.n['k'] == 'call' and p.n.get('op') == '=' and p.n.get('obj') is not None and
+                 access_path(f, p.n['obj'])[-1:] == ('next_',) and len(access_path(f, p.n['obj'])) == 2 and access_path(f, p.n['obj'])[0].startswith('local:')]
+        if not links:
+            ck.inconclusive(rule, f, 'link-then-advance', None, 'no link through a local cursor: the chain is built another way')
+            continue
+        for lk in links:
+            cur = access_path(f, lk.n['obj'])[0]
+            cid = int(cur.split(':')[1])
+            adv = [p for p in g.points if p.n is not None and any(v == cid and vx is not None and p.n['k'] != 'declstmt' and
+                                                                 access_path(p.f, vx)[:2] == (cur, 'next_') for (v, s_, vx) in defs_in_node(p.f, p.n))]
+            # from the link, the next link through the same cursor (or the end of the function) is reached only over an advance
+            r = g.reachable_from([q for (q, _l) in lk.succ], avoid=adv)
+            again = [q for q in links if q.id in r]
+            ok = bool(adv) and not again
+            ck.verdict(ok, rule, f, 'link-then-advance', lk.n, 'the cursor moves to the node just linked before the next pair is linked' if ok else
+                       'a pair is linked through a cursor that is not advanced to the new node before the next pair is linked: the chain keeps only the last pair after the first (the others are dropped)')
+
+
 def run(ck, prog):
     ck.doc('C10.R1', 'no write to (or move from) a Context / list node that is not rooted in a fresh local', 8)
     ck.doc('C10.R2', 'the runtime context stack has thread storage in the configured compiler variant', 2)
     ck.doc('C10.R3', 'Detach/Stack typestate and guards (pops, the token frame popped exactly once, search direction, push/pop/top/resize shape, Resize callers)', 6)
     ck.doc('C10.R4', 'token destructor detaches itself (unconditionally, or on state set only after a successful detach); Attach pushes the token\'s context; Scope attaches the span', 4)
     ck.doc('C10.R5', 'Context lookup returns a stored value only for an exactly equal key (length and bytes); not-found only after the whole list; the first node with the key decides (GetValue and HasKey)', 4)
+    ck.doc('C10.R6', 'derived contexts keep the older bindings: SetValue / SetValues link the old list behind the new chain on every path; the RuntimeContext helpers work on the context given, the current one only when none is given', 4)
+    ck.doc('C10.R7', 'a list node stores the whole key: allocated, recorded and copied lengths are the same expression', 1)
+    ck.doc('C10.R8', 'construction from a container keeps every pair (link, then advance the cursor)', 1)
     with ck.canary('C10.R1'):
         rule_r1(ck, prog, only='canary::c10::')
     rule_r1(ck, prog)
@@ -767,4 +1076,7 @@ def run(ck, prog):
     rule_r4_token_flag(ck, prog)
     rule_r5_first_match(ck, prog)
     rule_r5(ck, prog)
+    rule_r6(ck, prog)
+    rule_r7(ck, prog)
+    rule_r8(ck, prog)
     return {}
